@@ -637,7 +637,7 @@ def run(ck: Check, repo: Repo) -> None:
     )
     ck.not_decided = ["globs longer than the bound (the transducer is exact for all lengths; only the language"
                       " comparison is bounded in |g|)"]
-    ck.assumptions.append("paths range over all strings without CR/LF over the minterm alphabet"
+    ck.assumptions.append("paths range over all strings (line breaks included) over the minterm alphabet"
                           " {a, b, '.', '/', '*', '\\\\', other}")
     ck.trust("CPython ast", "re._parser", "sa/transducer.py", "sa/relang.py")
     try:
